@@ -12,6 +12,9 @@ import (
 	"sync"
 	"time"
 
+	"go/token"
+	"go/types"
+
 	"golang.org/x/tools/go/ssa"
 )
 
@@ -74,6 +77,8 @@ func main() {
 		os.Exit(cmdCheck(os.Args[2:]))
 	case "replay":
 		os.Exit(cmdReplay(os.Args[2:]))
+	case "cover":
+		os.Exit(cmdCover(os.Args[2:]))
 	default:
 		fmt.Fprintln(os.Stderr, "unknown command")
 		os.Exit(2)
@@ -510,6 +515,7 @@ func cmdCheck(args []string) int {
 		writeEvidence(cf, *prop, *tier, seed, outs, nviol, knownMatched, time.Since(t0).Seconds(), loadS, exit, validated)
 	}
 	fmt.Printf("property=%s tier=%s exit=%d wall=%.1fs (load %.1fs)\n", *prop, *tier, exit, time.Since(t0).Seconds(), loadS)
+	dumpCover()
 	return exit
 }
 
@@ -809,4 +815,142 @@ func runLockBalance(P *Program, cfg *RunCfg) (*Report, error) {
 		m.Verdict = "INCONCLUSIVE"
 	}
 	return m, nil
+}
+
+// dumpCover writes the executed blocks (function name, block index) of this process to GOSYM_COVER.
+func dumpCover() {
+	path := os.Getenv("GOSYM_COVER")
+	if path == "" {
+		return
+	}
+	var out [][2]interface{}
+	coverBlocks.Range(func(k, v interface{}) bool {
+		ck := k.(coverKey)
+		out = append(out, [2]interface{}{ck.fn.String(), ck.blk})
+		return true
+	})
+	b, _ := json.Marshal(out)
+	os.WriteFile(path, b, 0o644)
+}
+
+// cmdCover: gosym cover file... : union of the coverage files against all blocks of the non-test, non-harness
+// mangos functions; prints per package totals and every function with blocks no harness of any property reached.
+func cmdCover(args []string) int {
+	P, err := loadProgram(repoDir, filepath.Join(verifDir, "harness"))
+	if err != nil {
+		fmt.Println("load:", err)
+		return 2
+	}
+	covered := map[string]map[int]bool{}
+	for _, f := range args {
+		b, err := os.ReadFile(f)
+		if err != nil {
+			continue
+		}
+		var rows [][2]interface{}
+		json.Unmarshal(b, &rows)
+		for _, r := range rows {
+			fn, _ := r[0].(string)
+			bi, _ := r[1].(float64)
+			if covered[fn] == nil {
+				covered[fn] = map[int]bool{}
+			}
+			covered[fn][int(bi)] = true
+		}
+	}
+	type row struct {
+		fn          string
+		miss, total int
+		where       []string
+	}
+	pkgTot := map[string][2]int{}
+	var rows []row
+	var visit func(fn *ssa.Function)
+	seen := map[*ssa.Function]bool{}
+	visit = func(fn *ssa.Function) {
+		if fn == nil || seen[fn] || len(fn.Blocks) == 0 {
+			return
+		}
+		seen[fn] = true
+		pos := P.prog.Fset.Position(fn.Pos())
+		if strings.HasSuffix(pos.Filename, "_test.go") || strings.Contains(pos.Filename, "zz_verif") || strings.Contains(pos.Filename, "/harness/") {
+			return
+		}
+		r := row{fn: fn.String(), total: len(fn.Blocks)}
+		for _, b := range fn.Blocks {
+			if covered[fn.String()][b.Index] {
+				continue
+			}
+			// blocks that only panic (bounds-check failures etc.) are not library behaviour
+			if len(b.Instrs) > 0 {
+				if _, ok := b.Instrs[len(b.Instrs)-1].(*ssa.Panic); ok && len(b.Instrs) <= 3 {
+					r.total--
+					continue
+				}
+			}
+			r.miss++
+			for _, in := range b.Instrs {
+				if in.Pos() != token.NoPos {
+					p := P.prog.Fset.Position(in.Pos())
+					r.where = append(r.where, fmt.Sprintf("%s:%d", filepath.Base(p.Filename), p.Line))
+					break
+				}
+			}
+		}
+		pk := "?"
+		if fn.Pkg != nil {
+			pk = fn.Pkg.Pkg.Path()
+		} else if fn.Parent() != nil && fn.Parent().Pkg != nil {
+			pk = fn.Parent().Pkg.Pkg.Path()
+		} else {
+			return // synthetic wrapper (method value / thunk) without a package
+		}
+		t := pkgTot[pk]
+		t[0] += r.total - r.miss
+		t[1] += r.total
+		pkgTot[pk] = t
+		if r.miss > 0 {
+			rows = append(rows, r)
+		}
+		for _, af := range fn.AnonFuncs {
+			visit(af)
+		}
+	}
+	for _, pkg := range P.prog.AllPackages() {
+		pp := pkg.Pkg.Path()
+		if !strings.HasPrefix(pp, modPath) || strings.Contains(pp, "/zzverif") || strings.Contains(pp, "/internal/test") || strings.HasSuffix(pp, "/test") {
+			continue
+		}
+		for _, m := range pkg.Members {
+			switch v := m.(type) {
+			case *ssa.Function:
+				visit(v)
+			case *ssa.Type:
+				for _, t := range []types.Type{v.Type(), types.NewPointer(v.Type())} {
+					ms := P.prog.MethodSets.MethodSet(t)
+					for i := 0; i < ms.Len(); i++ {
+						visit(P.prog.MethodValue(ms.At(i)))
+					}
+				}
+			}
+		}
+	}
+	var pk []string
+	for k := range pkgTot {
+		pk = append(pk, k)
+	}
+	sort.Strings(pk)
+	tc, tt := 0, 0
+	for _, k := range pk {
+		t := pkgTot[k]
+		tc += t[0]
+		tt += t[1]
+		fmt.Printf("PKG %-55s %4d/%4d blocks\n", strings.TrimPrefix(k, modPath), t[0], t[1])
+	}
+	fmt.Printf("TOTAL %d/%d blocks of library code executed by some harness\n", tc, tt)
+	sort.Slice(rows, func(i, j int) bool { return rows[i].fn < rows[j].fn })
+	for _, r := range rows {
+		fmt.Printf("MISS %s %d/%d uncovered: %s\n", r.fn, r.miss, r.total, strings.Join(r.where, " "))
+	}
+	return 0
 }
